@@ -59,7 +59,7 @@ def check(run):
                     lines.append((cid3, "pkselect %s i%d %s" % (name, k, colnames)))
                     expect[cid3] = hrow + ["end ok", "locks lock,unlock locked=false"]
         conn.close()
-    res, impl2, model2 = ops.run_cmds("c04-probe", lines, timeout=1200)
+    res, impl2, model2 = ops.run_cmds("c04-probe", lines, timeout=1200, shards=8)
     kinds = {}
     for cid, cmd in lines:
         if cid.startswith("open"):
